@@ -121,7 +121,7 @@ def run_scenario(sc: dict[str, Any]) -> dict[str, Any]:
 
         def settings():
             return sim.settings(persistence__consistency_timeout=sc.get('ctimeout', 5),
-                                queueing__idle_timeout=sc.get('idle', 5),
+                                queueing__idle_timeout=sc.get('idle', 5), watching__reconnect_backoff=1,
                                 **{k: v for k, v in sc.get('settings', {}).items()})
 
         state = {'op': None, 'n': 0}
@@ -174,7 +174,7 @@ def run_scenario(sc: dict[str, Any]) -> dict[str, Any]:
                     return
                 start()
             elif op == 'relist':
-                sim.srv.compact(sim.things)
+                sim.srv.compact(sim.things, upto=sim.srv.rv + 1)      # (also the latest version is gone: the watch cannot resume, it must re-list)
                 for w in list(sim.srv.watches):
                     if w.res.plural == PLURAL: w.end('eof')
             elif op == 'hold':
@@ -515,6 +515,18 @@ def gen_scenarios(seed: int, n: int, profile: str) -> list[dict[str, Any]]:
                 env.append((t, ph, op))
         if not alive:
             t += rnd.choice([0, 1, 4]); env.append((t, 1, 'start'))
+        if profile in ('converge', 'errors', 'progress', 'timeouts', 'subs') and r2.random() < 0.4:
+            # the stream breaks and the operator re-lists within one life -- possibly while a worker sleeps for the delay of a handler:
+            # the listed state of an unchanged object is an event like any other (it wakes the sleeper, and is processed)
+            up_ = True; cand = []
+            for k_, e_ in enumerate(env):
+                if e_[2] in ('kill', 'stop'): up_ = False
+                elif e_[2] == 'start': up_ = True
+                if up_: cand.append(k_)
+            if cand:
+                k_ = r2.choice(cand); tr_ = env[k_][0] + r2.choice([0, 1, 2])
+                if all(not (e_[2] in ('kill', 'stop', 'start') and env[k_][0] < e_[0] <= tr_) for e_ in env):
+                    env.append((tr_, 1, 'relist')); env.sort(key=lambda e_: (e_[0], e_[1]))
         if profile == 'resume' and 'r' in hs and r2.random() < 0.3:
             # the operator restarts over an object that is being deleted and is still held by the framework's finalizer: resume
             # handlers that opted in (deleted=True) run for it, the others do not
